@@ -466,9 +466,9 @@ def r3_closed_forms(program, folder, rep):
 def check(program, rep):
     program.module(GEO)
     folder = Folder(program)
-    r1_tables(program, folder, rep)
-    r2_walk(program, folder, rep)
-    r3_closed_forms(program, folder, rep)
+    rep.guard("C11-R1", r1_tables, program, folder, rep)
+    rep.guard("C11-R2", r2_walk, program, folder, rep)
+    rep.guard("C11-R3", r3_closed_forms, program, folder, rep)
     return finish(rep, program, EXPLANATION, NOT_DECIDED,
                   trusted=["link vector table VEC in rules/C11.py",
                            "ORDTYPE evaluator"], exhaustive=True)
